@@ -282,22 +282,25 @@ pub fn gen_program(rng: &mut Rng, opts: &GenOpts) -> Program {
     let mut stmts = vec![];
     let mut ext_pending = externals.clone();
     rng.shuffle(&mut ext_pending);
-    let place_ext = |rng: &mut Rng, stmts: &mut Vec<GStmt>, ext_pending: &mut Vec<String>, force: bool| {
+    // inside a block an .external line may carry a label of its own (it labels the current location counter)
+    let mut ext_label_no = 0u32;
+    let mut place_ext = |rng: &mut Rng, stmts: &mut Vec<GStmt>, ext_pending: &mut Vec<String>, force: bool, inside: bool| {
         while !ext_pending.is_empty() && (force || rng.chance(1, 3)) {
             let n = ext_pending.pop().unwrap();
-            stmts.push(GStmt { labels: vec![], k: K::External(recase(rng, &n)) });
+            let labels = if inside && rng.chance(1, 3) { ext_label_no += 1; vec![format!("{}{}q", if rng.bool() { "eL" } else { "El" }, ext_label_no)] } else { vec![] };
+            stmts.push(GStmt { labels, k: K::External(recase(rng, &n)) });
         }
     };
     for (bi, body) in bodies.into_iter().enumerate() {
-        place_ext(rng, &mut stmts, &mut ext_pending, false);
+        place_ext(rng, &mut stmts, &mut ext_pending, false, false);
         stmts.push(GStmt { labels: vec![], k: K::Orig(origins[bi] as i32) });
         for st in body {
-            if rng.chance(1, 12) { place_ext(rng, &mut stmts, &mut ext_pending, false); }
+            if rng.chance(1, 12) { place_ext(rng, &mut stmts, &mut ext_pending, false, true); }
             stmts.push(st);
         }
         stmts.push(GStmt { labels: std::mem::take(&mut end_labels[bi]), k: K::End });
     }
-    place_ext(rng, &mut stmts, &mut ext_pending, true);
+    place_ext(rng, &mut stmts, &mut ext_pending, true, false);
     Program { stmts }
 }
 
